@@ -8,7 +8,7 @@ props="$@"
 git -C /repo apply $d/patch.diff || exit 3
 for p in $props; do
   echo "== $name: check $p"
-  (cd /verif && ./check $p quick 2>&1 | grep -v "^WARNING" | cut -c1-400 | head -6; echo "exit=${PIPESTATUS[0]}")
+  (cd /verif && ./check $p quick 2>&1 | grep -v "^WARNING\|^KNOWN-FINDING" | cut -c1-400 | head -6; echo "exit=${PIPESTATUS[0]}")
 done
 git -C /repo checkout -- .
 git -C /repo status --short | head -3
